@@ -21,6 +21,8 @@ Record c02_case := mkCase {
   k_cls : cls;
   k_max : nat;
   k_on_miss : option (list (K * V) * V);
+  k_on_miss_ok : bool;                   (* false: on_miss=<something not callable> was passed *)
+  k_ctor : option exn;                   (* observed: the exception the constructor raised, if any *)
   k_init : list (K * V);                 (* values= of the constructor *)
   k_steps : list (hop * obs)             (* operation, implementation's observation after it *)
 }.
@@ -29,9 +31,23 @@ Definition case_cfg (k : c02_case) : cfg :=
   mkCfg (k_cls k) (k_max k)
         (match k_on_miss k with None => None | Some (t, d) => Some (table_fun t d) end).
 
-Definition c02_verdict (k : c02_case) : verdict :=
-  let c := case_cfg k in
-  (pagree_check c (k_init k) (k_steps k), spec_check c (k_init k) (k_steps k), false).
+Definition steps_none (k : c02_case) : bool := match k_steps k with [] => true | _ => false end.
+
+Definition c02_agree (k : c02_case) : bool :=
+  option_eqb exn_eqb (ctor_outcome (k_max k) (k_on_miss_ok k)) (k_ctor k)
+  && match k_ctor k with
+     | None => pagree_check (case_cfg k) (k_init k) (k_steps k)
+     | Some _ => steps_none k
+     end.
+
+Definition c02_holds (k : c02_case) : bool :=
+  option_eqb exn_eqb (spec_ctor (k_max k) (k_on_miss_ok k)) (k_ctor k)
+  && match k_ctor k with
+     | None => spec_check (case_cfg k) (k_init k) (k_steps k)
+     | Some _ => steps_none k
+     end.
+
+Definition c02_verdict (k : c02_case) : verdict := (c02_agree k, c02_holds k, false).
 
 (* what the model computes, for replay files *)
 Definition c02_explain (k : c02_case) : list obs :=
